@@ -238,4 +238,62 @@ def rrun (s : RSt) : List Act → RSt
 
 end Race
 
+/-! ### the same protocol with `goAwayMu` (the code after the repair of F64)
+
+Any number of writers outside the stream loop (read loop, idle timer, …), each running
+`lock; last := lastID; queue GOAWAY(max last strm); state := closed; unlock` one step at a time, interleaved in any
+way with the stream loop, whose `lock; closing?; lastID := id; unlock` section is atomic and can only run while the
+lock is free (while a writer holds it the stream loop waits: the action does nothing and is retried later). -/
+namespace Locked
+
+structure LSt where
+  lastID : Nat := 0
+  closing : Bool := false
+  holder : Option Nat := none          -- the writer holding `goAwayMu`
+  pc : Nat → Nat := fun _ => 0         -- per writer: 0 not started, 1 locked, 2 loaded, 3 queued, 4 closed flag set, 5 unlocked
+  loaded : Nat → Nat := fun _ => 0     -- per writer: its copy of `lastID`
+  trace : List Rec := []
+
+inductive Act where
+  | slHeaders (id : Nat)     -- stream loop: HEADERS for a new id
+  | w (i : Nat) (strm : Nat) -- writer `i` takes its next step (its GOAWAY names stream `strm`, 0 for none)
+deriving Repr, DecidableEq
+
+def upd (f : Nat → Nat) (i v : Nat) : Nat → Nat := fun j => if j = i then v else f j
+
+def lstep (s : LSt) : Act → LSt
+  | .slHeaders id =>
+    if s.holder.isSome then s                       -- waits for the lock
+    else if s.closing then { s with trace := s.trace ++ [.refused id] }
+    else if id ≤ s.lastID then s
+    else { s with lastID := id, trace := s.trace ++ [.opened id, .dispatched id] }
+  | .w i strm =>
+    match s.pc i with
+    | 0 => if s.holder.isSome then s else { s with holder := some i, pc := upd s.pc i 1 }
+    | 1 => { s with loaded := upd s.loaded i s.lastID, pc := upd s.pc i 2 }
+    | 2 => { s with trace := s.trace ++ [.goAway (max (s.loaded i) strm) NO_ERROR], pc := upd s.pc i 3 }
+    | 3 => { s with closing := true, pc := upd s.pc i 4 }
+    | 4 => { s with holder := none, pc := upd s.pc i 5 }
+    | _ => s
+
+def lrun (s : LSt) : List Act → LSt
+  | [] => s
+  | a :: as => lrun (lstep s a) as
+
+/-- a left-to-right checker of the trace: the highest id dispatched so far and whether a GOAWAY has been seen;
+`none` once the property is broken -/
+def ck : Option (Nat × Bool) → Rec → Option (Nat × Bool)
+  | none, _ => none
+  | some (m, g), .dispatched d => if g then none else some (max m d, g)
+  | some (m, _), .goAway l _ => if l < m then none else some (m, true)
+  | some mg, _ => some mg
+
+/-- what the property asks of a trace: every GOAWAY's last-stream-id is at least every id dispatched before it, and
+nothing is dispatched after a GOAWAY -/
+def Truth (t : List Rec) : Prop := (t.foldl ck (some (0, false))).isSome
+
+instance (t : List Rec) : Decidable (Truth t) := by unfold Truth; infer_instance
+
+end Locked
+
 end H2.Server.Abs.Closing
